@@ -27,7 +27,8 @@ MANIFEST_ENTRY = {
 PROP = "C17"
 LEVEL = "proof"
 THEOREMS = ["C17_lr_prefix_sound", "C17_prefix_oracle_correct", "C17_path_prefix_sound", "C17_reference_prefix_sppf_exact",
-            "C17_glr_model_prefix_sound", "C17_glr_model_forest_prefix_sound"]
+            "C17_glr_model_prefix_sound", "C17_glr_model_forest_prefix_sound",
+            "C17_tree_found_in_glr_model_forest_is_prefix_parse"]
 META = {
     "rule": "cases = (acyclic grammar, LR or GLR with lexical_disambiguation on/off, consume_input=False, input = "
             "sentence followed by arbitrary continuation); non-trivial = input with >= 2 sentence prefixes or a "
@@ -177,12 +178,23 @@ def run_unit(u):
                                                   "expected": max(ends)})
                         break
                 qpt = [b.add("derives", 0, enc_tree(num, t)) for t in ptrees]
-                checks.append((case, impl, qp, qs, qf, skip_table(gp, text),
-                               b.add("glr", 4000, 0, 1 if lexdis else 0), impl_glr, qpt))
+                qg_ = b.add("glr", 4000, 0, 1 if lexdis else 0)
+                # ... and is found in the packed forest of the model's run
+                # (hypothesis of C17_tree_found_in_glr_model_forest_is_prefix_parse)
+                qgt = [b.add("glrtree", enc_tree(num, t)) for t in ptrees]
+                checks.append((case, impl, qp, qs, qf, skip_table(gp, text), qg_, impl_glr, qpt, qgt))
             out = b.run()
             st["traces"] += len(checks)
-            for case, impl, qp, qs, qf, skip, qg, impl_glr, qpt in checks:
+            for case, impl, qp, qs, qf, skip, qg, impl_glr, qpt, qgt in checks:
                 lexdis_on = case["lexical_disambiguation"]
+                for q in qgt:
+                    if out[q] == "glrtree 1":
+                        bump(st, "impl_trees_found_in_model_forest")
+                    elif out[q] == "glrtree 0":
+                        res["disagreements"].append({"case": case, "what": "a tree of the implementation's prefix forest "
+                                                     "is not in the packed forest of the GLR driver model",
+                                                     "impl": "tree", "model": "not found"})
+                        break
                 for q in qpt:
                     bump(st, "prefix_trees_checked")
                     if out[q] != "derives 1":
